@@ -8,6 +8,17 @@ CHAIN_TB = [
     "modelled, not verified: encoding/json lexer and printer below the JSON tree, crypto/ecdsa, go-ethereum key/address functions, math/rand (the shuffle is recomputed with the same seed), Go map iteration order (an input of the model)",
 ]
 
+def chain_suites(seed_off, quick=96, thorough=3200, extra=None):
+    l = [{"suite": "chain", "mode": "mixed", "n_quick": quick, "n_thorough": thorough, "shards": 8, "shards_thorough": 16, "seed_off": seed_off}]
+    return l + (extra or [])
+
+CHAIN_RULE = ("chain suite: histories of 14+ operations on a real, fully wired node (pool + registries + blockchain) in a world of "
+              "1-2 other real nodes and scripted peers: submissions (wallet-style and invalid in exactly one respect), production ticks "
+              "(aligned, repeated, skipped, unaligned), sync rounds against honest, mutated (one rule broken at one height) and failing "
+              "neighbors, registry refreshes; after every operation the whole observable state (block hashes, Utxos per address, "
+              "registered and pending-removal addresses, pool) is compared with the extracted model. A history is distinct by its "
+              "sequence of (operation kind, outcome).")
+
 CHECKS = {
     "C20": {
         "suites": [{"suite": "clock", "n_quick": 240, "n_thorough": 4000, "shards": 8}],
@@ -16,5 +27,41 @@ CHECKS = {
         "trusted_base": ["time.Ticker and goroutine scheduling (the model takes the served clock readings as its input)"],
         "assumptions": ["timestamps stay within int64 nanoseconds (years 1678-2262), as time.Time.UnixNano requires",
                         "Stop is observed from the engine's own goroutine; the unsynchronised flag itself is a C16 item"],
+    },
+    "C11": {
+        "suites": chain_suites(11),
+        "monitor_props": ["C11"],
+        "mismatch_kinds": ["admit", "validate"],
+        "rule": CHAIN_RULE,
+        "trusted_base": CHAIN_TB,
+        "assumptions": ["minimal fee >= 1 (with a zero minimal fee a no-input transaction could be pooled and a produced block would carry two rewards)",
+                        "production ticks are the aligned ones the engine delivers (C20); unaligned ticks are exercised for the correspondence only",
+                        "reward = fees collected holds in exact arithmetic when genesis + fees < 2^64; the accumulated reward is never larger than the exact fees"],
+    },
+    "C06": {
+        "suites": chain_suites(6, quick=96),
+        "monitor_props": ["C06"],
+        "mismatch_kinds": ["update"],
+        "rule": CHAIN_RULE + " For C06 the compared projection of a sync round is: kept/replaced, the set of neighbors whose answer passed verification, and the adopted chain (the model is run once per possible tie-break and must match for one of them).",
+        "trusted_base": CHAIN_TB,
+        "assumptions": ["ties in waiting time resolve by Go's map iteration order: the model's pref argument, universally quantified in the theorems",
+                        "no neighbor target is the literal string \"host\" (real targets are ip:port)"],
+    },
+    "C08": {
+        "suites": [{"suite": "catchup", "n_quick": 64, "n_thorough": 1200, "shards": 8, "shards_thorough": 16}],
+        "monitor_props": ["C08"],
+        "mismatch_kinds": ["update", "validate", "page"],
+        "rule": "catchup suite: a real serving node with a chain of 2..25 blocks built from wallet-style transactions, page sizes 3..12, and a real catching-up node starting from a one-block prefix, a longer prefix or a short private chain; sync rounds are counted against 1 + ceil(|C|/(page-1)); Blocks(h) is swept over h in [0, n+2] and at 2^63, 2^64-1 and around 2^64-page, and compared with the model's blocks_page; distinct by (start kind, page size, chain length, start length)",
+        "trusted_base": CHAIN_TB,
+        "assumptions": ["page size + chain length <= 2^64 (a page size near 2^64 makes h+limit wrap and the slice expression panic: a setting, not an input)"],
+    },
+    "C09": {
+        "suites": [{"suite": "decay", "n_quick": 400, "n_thorough": 6000, "shards": 4, "shards_thorough": 16, "eval": "python3 decay_eval.py {cases} {work} 4"}],
+        "monitor_props": ["C09"],
+        "rule": "decay suite: Utxo.Value at lattice points (y in 0, 1, base, limit-1, limit, limit+1, 2*limit, powers of two up to 2^53, random) x (1 ns, h/2, h, h+1, 20h, random) x six settings; each point is enclosed by Coq's interval tactic (120 bits) on the real model G/F and Go's uint64 must lie within the property's slack of the enclosure; distinct by (yielding, y kind, x kind, setting)",
+        "trusted_base": ["Coq Reals axioms (ClassicalDedekindReals.sig_not_dec, sig_forall_dec, FunctionalExtensionality.functional_extensionality_dep, Classical_Prop.classic); the interval tactic additionally relies on the primitive integer/float axioms of the standard library (Uint63, PrimFloat, FloatAxioms) for the numeric Example and for the per-point enclosures",
+                         "binary64 evaluation through Go's math.Exp/Log/Pow is not modelled: it is validated pointwise against the enclosures, not proved"],
+        "assumptions": ["integer settings with 1 <= base < limit (then 0 < k1; for real-valued settings k1 > 0 needs (2B)^2 < L^3, see C09_k1_pos_real_refuted)",
+                        "the floating-point slack clause of the property is checked pointwise, not proved"],
     },
 }
